@@ -23,6 +23,7 @@ from mc.core import Acc, Violation, scratch_root
 from mc.ref.pin2tsv import render_pin, expected_lines, text_lines, ref_convert, ref_is_valid, is_dd, TAB
 
 PROPERTY = "C19"
+SIZE_MODULES = ['mokapot.parsers.pin_to_tsv']  # see mc.runner._sized_passes
 LEVEL = "exploration"
 RULE = (
     "cases = (feature count, Proteins column index, protein count per row, DefaultDirection none/short/full, "
